@@ -30,9 +30,16 @@ class Mr(State):
 
 
 class Mf(State):
-    """metric recorded with a raising merge function"""
+    """metric recorded with a raising merge function; it also cannot be turned into text (a __str__ that formats a value it does not
+    have): whatever happens to such a record, recording it never raises"""
 
     v: int
+
+    def __str__(self) -> str:
+        raise TypeError("unsupported format string passed to NoneType.__format__")
+
+    def __format__(self, spec: str) -> str:
+        raise TypeError("unsupported format string passed to NoneType.__format__")
 
 
 TYPES = {"Mx": Mx, "Ms": Ms, "Mr": Mr, "Mf": Mf}
